@@ -140,6 +140,7 @@ def run(name, grammars, jobs, variants=genrun.ALL_VARIANTS, **kw):
                     if w:
                         diffs.append(dict(grammar=gname, variant=vn, mode=mode, payload=payload, part=p, impl=raw, model=ms, what=w))
                         break
+    out['e2e'] = backend.e2e_diffs([gname for (gname, g) in grammars], paths, dumps)
     out['dumps'] = {gname: d for (gname, g), d in zip(grammars, dumps)}
     out['model'] = model
     out['diffs'] = diffs
